@@ -29,6 +29,7 @@ inside a //@fn or //@frag block (terminated by //@end):
   //@wrap                      following lines: wrapper fn header up to (excluding) '{'
   //@pre                       following lines: statements placed before the fragment
   //@post                      following lines: statements/expression placed after it
+  //@bind NAME <regex>         ${NAME} in the contract text = group 1 of the regex in the extracted text (a local's name)
   //@subst <regex> => <text>   textual substitution inside the fragment (listed in evidence); `//@subst?` = optional
 """
 import os
@@ -786,6 +787,16 @@ def _restrict_struct(text, keep, generics, open_, where):
     return "\n".join(lines)
 
 
+def _apply_binds(full, searched, d, where, ex):
+    for nm, rx in d.get("binds", []):
+        m = re.search(rx, searched, re.M)
+        if not m or not re.fullmatch(r"[A-Za-z_][A-Za-z0-9_]*", m.group(1) or ""):
+            raise LostAnchor("%s: bind %s /%s/ does not match" % (where, nm, rx))
+        full = full.replace("${%s}" % nm, m.group(1))
+        ex.substs.append("%s: ${%s} = %s (name of a local taken from the source)" % (where, nm, m.group(1)))
+    return full
+
+
 def _frag_probe(src, item, d, where):
     """raise LostAnchor/Unsupported if the fragment anchors do not resolve (used for //@optional)."""
     if item.body_open is None:
@@ -946,6 +957,11 @@ def assemble(template_path, repo):
                 elif key == "stop-before":
                     d["stop"] = arg
                     d["stop_before"] = True
+                elif key == "bind":
+                    # `//@bind NAME <regex>`: group 1 of the regex, searched in the extracted text, is an identifier of the
+                    # source (a local's name); `${NAME}` in the template's contract text stands for it (robust to renames)
+                    nm, _, rx = arg.partition(" ")
+                    d.setdefault("binds", []).append((nm.strip(), rx.strip()))
                 elif key in ("subst", "subst?"):
                     # `//@subst? a => b`: applied where it matches; a miss is not a lost anchor (the contract must then
                     # notice what the missing text means)
@@ -977,6 +993,7 @@ def assemble(template_path, repo):
             a = item.start
             text = src[a:item.end]
             text = _splice_fn(text, d, where)
+            text = _apply_binds(text, src[a:item.end], d, where, ex)
             tier = "T2" if d["rules"] else "T1"
             ex.functions.append({"file": rel, "path": segs, "tier": tier, "rules": list(d["rules"]),
                                  "line": _line_of(src, a), "end_line": _line_of(src, item.end)})
@@ -1055,6 +1072,7 @@ def assemble(template_path, repo):
                 hdr = wrapper + "\n" + (d.get("sig", "") + "\n" if d.get("sig") else "")
                 d2 = {"loops": d["loops"], "proofs": d["proofs"], "_dropped": ex.dropped}
                 full = _splice_fn(full, d2, where, body_off=len(hdr))
+            full = _apply_binds(full, frag, d, where, ex)
             out.extend(full.split("\n"))
             ex.linemap.append((start_out, start_out + frag.count("\n"), rel, src_line))
             if not d.get("novacuity"):
